@@ -120,6 +120,23 @@ theorem rearm_step (s : State) (id : Nat) (hc : s.cur = some (id, [])) (hnc : (s
     ((step s .cbStep).1.tm id).armed = true ∧ ((step s .cbStep).1.tm id).exp = s.now + (s.tm id).period := by
   simp [step, cbStep, hc, finish, hnc, hp]
 
+/-- "again and again": whenever no callback is in progress, a repeating, never cancelled timer
+on a running manager can be brought to fire once more just by waiting and draining (and by
+`repeating_rearms` it is then armed/queued/running again, so this can be repeated forever) -/
+theorem repeating_fires_again (ops : List Op) (id t0 dl p : Nat) (a : List Nat)
+    (h : createdOf (run ops).2 id = some (t0, dl, p, a)) (hp : 0 < p)
+    (hnc : cancelledIn (run ops).2 id = false) (hr : (run ops).1.running = true) (hcur : (run ops).1.cur = none) :
+    ∃ ops', cbCount (run (ops ++ ops')).2 id = cbCount (run ops).2 id + 1 := by
+  have I := inv_run ops
+  have hcc : ((run ops).1.tm id).cancelled = false := by
+    cases hc : ((run ops).1.tm id).cancelled with
+    | false => rfl
+    | true => have := (I.hist id).cancelComplete hc; simp_all
+  rcases repeating_rearms ops id t0 dl p a h hp hnc hr with h1 | h1 | h1
+  · exact ⟨_, by unfold run; rw [runFrom_append]; exact can_fire_armed I.wf id h1 hr hcur⟩
+  · exact ⟨_, by unfold run; rw [runFrom_append]; exact can_fire_queued id h1 hcc hcur⟩
+  · simp [State.curId, hcur] at h1
+
 example : let ops := [Op.add 2 0 [], .advance 2, .expire 2, .doNext 0, .cbStep, .advance 2, .expire 2, .doNext 0, .cbStep]
     createdOf (run ops).2 2 = some (0, 2, 2, []) ∧ cancelledIn (run ops).2 2 = false ∧
     ((run ops).1.tm 2).armed = true ∧ cbCount (run ops).2 2 = 2 := by decide
